@@ -1075,10 +1075,9 @@ def compile_match_from_query(query_items: tuple):
             col = FIELDS_TO_COLUMNS["kind"]
             filter_clauses.add(f"(et[{col}] in {value!r})")
         elif key == "since":
-            # since: 0 restricts nothing (it must not fall through to the tag clause)
-            if value:
-                col = FIELDS_TO_COLUMNS["created_at"]
-                filter_clauses.add(f"(et[{col}] >= {value!r})")
+            # (also for since: 0 - it must not fall through to the tag clause)
+            col = FIELDS_TO_COLUMNS["created_at"]
+            filter_clauses.add(f"(et[{col}] >= {value!r})")
         elif key == "until":
             col = FIELDS_TO_COLUMNS["created_at"]
             filter_clauses.add(f"(et[{col}] <= {value!r})")
